@@ -55,7 +55,7 @@ EvalSeqF(s, seq) ==
   IF seq = <<>> \/ s.failed THEN s ELSE EvalSeqF(EvalF(s, Head(seq)), Tail(seq))
 
 EvalF(s, c) ==
-  IF s.failed \/ c \in Inputs \/ s.cache[c] # NoneV THEN s
+  IF s.failed \/ c \in Inputs \/ ~NoVal(s.cache[c]) THEN s
   ELSE IF c \in broken /\ c \in FailEarly THEN [s EXCEPT !.failed = TRUE]
   ELSE LET s1 == EvalSeqF(s, NeededSeq(c))
        IN  IF s1.failed THEN s1
@@ -75,7 +75,8 @@ FEvaluate(n) ==
       c0 == [x \in Nodes |->
                IF x \notin B THEN cache[x]
                ELSE IF x \in Inputs THEN inp[x]
-               ELSE IF x \in Formulas /\ Src = "Stored" /\ ~changed THEN Stored(x)
+               ELSE IF x \in Formulas /\ Src = "Stored" /\ ~changed THEN StoredRead(x)
+               ELSE IF x \in Formulas /\ ~changed THEN UnkV    \* as Engine!EvalStep
                ELSE NoneV]
       \* new ranges first (evaluated when built), then the address itself
       s  == EvalSeqF([cache |-> c0, failed |-> FALSE],
@@ -136,7 +137,7 @@ ReturnsTrue == act.op = "evaluate" /\ ~raised => ret = TrueAll(inp, ovr)[act.n]
 RaiseJustified == act.op = "evaluate" /\ raised => NeedsBroken(act.n, broken, ovr)
 \* whatever is cached is the true value (so later calls cannot return stale data)
 CoherentF == LET t == TrueAll(inp, ovr) IN
-  \A n \in built \ Inputs : cache[n] # NoneV => cache[n] = t[n]
+  \A n \in built \ Inputs : ~NoVal(cache[n]) => cache[n] = t[n]
 \* cells that do not depend on a broken cell always evaluate (UnrelatedOK)
 UnrelatedOK == act.op = "evaluate" /\ ~NeedsBroken(act.n, broken, ovr) => ~raised
 
